@@ -249,12 +249,15 @@ def check(gir, include_dirs=(), strict_includes=True):
             rv = el.find(GI + 'return-value')
             if rv is not None:
                 values.append(rv)
-            # a value marked skip="1" is not exposed to bindings; the statement's per-value
-            # requirements (transfer, scope, bindable type) are not applied to it
-            values = [v for v in values if v.get('skip') != '1']
-            params_all = params
+            # every value states its transfer (g-ir-compiler requires the attribute even on skipped values)
             for v in values:
                 if v.get('transfer-ownership') is None:
+                    bad('missing-transfer-ownership', '%s %s' % (path_of(el), _local(v.tag) + ':' + str(v.get('name'))))
+            # a value marked skip="1" is not exposed to bindings; the remaining per-value
+            # requirements (scope, bindable type) are not applied to it
+            values = [v for v in values if v.get('skip') != '1']
+            for v in values:
+                if False:
                     bad('missing-transfer-ownership', '%s %s' % (path_of(el), _local(v.tag) + ':' + str(v.get('name'))))
                 for t in value_types(v):
                     type_ok(t, el)
@@ -306,6 +309,8 @@ def check(gir, include_dirs=(), strict_includes=True):
                         bad('shadows-pair-not-mutual', '%s %s=%s has no partner pointing back' % (path_of(el), attr, el.get(attr)))
         elif tag == GI + 'field':
             cb = el.find(GI + 'callback')
+            if cb is not None and cb.get('introspectable') == '0':
+                bad('introspectable-field-with-non-introspectable-callback', path_of(el))
             for t in value_types(el):
                 type_ok(t, el)
             owner = parents.get(el)
